@@ -78,6 +78,7 @@ type RunConfig struct {
 	Replay     map[string]any // concrete mode: tag -> value
 	StopAtFirst bool
 	NoMerge    bool
+	QuickMs    int // incremental attempt budget before the one-shot fallback (0: no fallback)
 	Deadline   time.Time
 }
 
@@ -150,10 +151,13 @@ func NewEngine(ld *Loaded, cfg RunConfig) (*Engine, error) {
 	e := &Engine{prog: ld.prog, ld: ld, cfg: cfg}
 	e.tt = NewTermTable()
 	if cfg.Solver == "" {
-		cfg.Solver = "z3"
+		cfg.Solver = defaultSolver()
 	}
 	if cfg.TimeoutMs == 0 {
 		cfg.TimeoutMs = 60000
+	}
+	if cfg.QuickMs == 0 {
+		cfg.QuickMs = 1000
 	}
 	e.cfg = cfg
 	if cfg.Replay == nil {
@@ -161,6 +165,7 @@ func NewEngine(ld *Loaded, cfg RunConfig) (*Engine, error) {
 		if err != nil {
 			return nil, err
 		}
+		s.quickMs = cfg.QuickMs
 		e.sol = s
 	}
 	e.res = &RunResult{Harness: cfg.Harness, Params: cfg.Params, Asserts: map[string]*AssertStat{}, Reach: map[string]int{},
@@ -536,6 +541,9 @@ func (e *Engine) doAssert(cond *Term, id string) {
 		return
 	}
 	if cond == e.tt.True {
+		if len(e.res.Samples) < 3 && len(e.symvars) > 0 {
+			e.res.Samples = append(e.res.Samples, fmt.Sprintf("assert %s: condition over %d symbolic inputs normalised to true (both sides are the same term), |pc|=%d", id, len(e.symvars), len(e.pc)))
+		}
 		return
 	}
 	st.Nontrivial++
@@ -650,6 +658,10 @@ func (e *Engine) model(extra *Term) map[string]any {
 
 func (e *Engine) reportViolation(id, kind, msg, pos string, extra *Term) {
 	v := Violation{Harness: e.cfg.Harness, Params: e.cfg.Params, AssertID: id, Kind: kind, Msg: msg, Pos: pos}
+	if kind == "assert" && strings.HasPrefix(id, "no-panic") && e.lastPanic != nil {
+		v.Msg = e.lastPanic.msg
+		v.Pos = e.posString(e.lastPanic.pos)
+	}
 	if e.cfg.Replay == nil {
 		v.Model = e.model(extra)
 		// record picks so the replay can follow the same enumerated choices
